@@ -84,11 +84,16 @@ def build(ctx):
     ns = list(range(0, ctx.q(6, 9)))
     ctx.assumptions = ["input length L <= N (documented precondition); C-string overload: no interior NUL; all array contents, guards, input bytes, L, eos mode, count, value symbolic"]
     modes = ["checked"] if ctx.quick else ["checked", "unchecked"]
-    for std in hgen.stds(ctx):
-        for mode in modes:
-            u = ctx.lower("c14", cpp(ns), std=std, mode=mode)
+    plan = [(std, mode, False) for std in hgen.stds(ctx) for mode in modes]
+    # hook H3: is_constant_evaluated() forced to true, so the branches that only constant evaluation takes (string_length loop in
+    # assign_string(const char*), bounded scan in strlen) are lowered as ordinary code and meet the same obligations (C++20 only: they do not exist before)
+    plan += [("20", mode, True) for mode in modes]
+    for std, mode, ce in plan:
+        if True:
+            u = ctx.lower("c14ce" if ce else "c14", cpp(ns), std=std, mode=mode, extra=("-DSBEPP_VERIF_CONSTANT_EVALUATED",) if ce else ())
             for n in ns:
-                hs.append(P.Harness("arr%d_%s_cxx%s" % (n, mode, std), harness(u, n, mode == "checked"), [u], unwind=n + 3,
+                hs.append(P.Harness("arr%d_%s_cxx%s%s" % (n, mode, std, "_consteval" if ce else ""), harness(u, n, mode == "checked"), [u], unwind=n + 3,
                                     desc="static_array_ref<char,char,%d>: assign_string(cstr|range, none/single/all), assign_range, assign(it,it), assign(ilist), fill, assign(count,v), strlen, strlen_r vs. spec; guards on both sides" % n,
-                                    bounds={"N": n, "input_length": "0..%d" % n, "eos_modes": 3, "std": "c++" + std, "build": mode}))
+                                    bounds={"N": n, "input_length": "0..%d" % n, "eos_modes": 3, "std": "c++" + std, "build": mode, "constant_evaluation_branches_forced": ce},
+                                    meta={"unwind_is_property": True} if ce else None))   # a scan that does not stop at N is the violation itself
     return hs
